@@ -28,10 +28,10 @@ Lemma created_state_logs cfg s h x vs : events cfg = true ->
 Proof. intros He. destruct (created_events cfg s h x vs) as [H1 H2]. by rewrite H1, H2, He. Qed.
 
 (** One elementary transition that may not clear the logs. *)
-Lemma estep_since cfg s s' iss dead : events cfg = true -> wrapping cfg = false -> Inv s -> Hist2 s iss dead -> estep false cfg s s' ->
+Lemma estep_since wr cfg s s' iss dead : events cfg = true -> wrapping cfg = false -> Inv s -> Hist2 s iss dead -> estep false wr cfg s s' ->
   exists C D, since s s' iss C D /\ (C = [] \/ D = []).
 Proof.
-  intros Hev Hw HI H2 Hstep. destruct Hstep as [s vs s' h Hvs Hp|s vs s' h Hvs Hp|s k h s' row Hk Hd|s s' HI' (Ea & Ec & Ee & Es & Hlogs)].
+  intros Hev Hw HI H2 Hstep. destruct Hstep as [s vs s' h Hvs Hp|s vs s' h Hvs Hp|s k h s' row Hk Hd|s s' HI' (Ea & Ec & Ee & Es & Hlogs & _)].
   - destruct (push_spec cfg s vs HI Hvs) as [Ho _]. rewrite Hp in Ho.
     inversion Ho as [h0 x Hlt Hh Hx|n h0 x Hfull Hn Hnc Hneq Hh Hx|]; try clear Hneq; subst.
     + destruct (hist2_created cfg s iss dead vs h0 x HI H2 Hlt Hh Hx) as [_ Hfresh].
@@ -114,13 +114,13 @@ Proof.
       * by right.
 Qed.
 
-Lemma estep_since2 cfg s s' iss dead : events cfg = true -> wrapping cfg = false -> Inv s -> Hist2 s iss dead -> estep false cfg s s' ->
+Lemma estep_since2 wr cfg s s' iss dead : events cfg = true -> wrapping cfg = false -> Inv s -> Hist2 s iss dead -> estep false wr cfg s s' ->
   Inv s' /\ exists iss' dead' C D, Hist2 s' iss' dead' /\ sub iss iss' /\ sub dead dead' /\ since s s' iss C D /\
                                   (forall e, e ∈ C -> e ∈ iss') /\ (forall e, e ∈ D -> e ∈ dead').
 Proof.
   intros Hev Hw HI H2 H1.
-  destruct (estep_since cfg s s' iss dead Hev Hw HI H2 H1) as (C & D & S1 & Hcd).
-  destruct (estep_hist2 false cfg s s' iss dead Hw HI H2 H1) as (HI' & iss' & dead' & H2' & Sub1 & Sub2).
+  destruct (estep_since wr cfg s s' iss dead Hev Hw HI H2 H1) as (C & D & S1 & Hcd).
+  destruct (estep_hist2 false wr cfg s s' iss dead Hw HI H2 H1) as (HI' & iss' & dead' & H2' & Sub1 & Sub2).
   split; [done|]. exists iss', dead', C, D. split_and!; try done.
   - intros e He. assert (Hnd : e ∉ D) by (destruct Hcd as [->| ->]; set_solver).
     assert (Hin : e ∈ ents s') by (apply (sn_live _ _ _ _ _ S1); split; [by right|done]).
@@ -133,14 +133,14 @@ Proof.
 Qed.
 
 (** Any number of transitions without a clear. *)
-Theorem esteps_since cfg s0 s iss dead : events cfg = true -> wrapping cfg = false -> Inv s0 -> Hist2 s0 iss dead ->
-  esteps false cfg s0 s ->
+Theorem esteps_since wr cfg s0 s iss dead : events cfg = true -> wrapping cfg = false -> Inv s0 -> Hist2 s0 iss dead ->
+  esteps false wr cfg s0 s ->
   exists iss' dead' C D, Hist2 s iss' dead' /\ sub iss iss' /\ sub dead dead' /\ since s0 s iss C D /\
                          (forall e, e ∈ C -> e ∈ iss') /\ (forall e, e ∈ D -> e ∈ dead').
 Proof.
   intros Hev Hw HI H2 Hs. revert iss dead HI H2. induction Hs as [s|s s' s'' H1 Hs IH]; intros iss dead HI H2.
   - exists iss, dead, [], []. split_and!; try done; [apply since_refl|set_solver|set_solver].
-  - destruct (estep_since2 cfg s s' iss dead Hev Hw HI H2 H1) as (HI' & iss1 & dead1 & C1 & D1 & H21 & Sub1 & Sub1' & S1 & HC1 & HD1).
+  - destruct (estep_since2 wr cfg s s' iss dead Hev Hw HI H2 H1) as (HI' & iss1 & dead1 & C1 & D1 & H21 & Sub1 & Sub1' & S1 & HC1 & HD1).
     destruct (IH iss1 dead1 HI' H21) as (iss2 & dead2 & C2 & D2 & H22 & Sub2 & Sub2' & S2 & HC2 & HD2).
     exists iss2, dead2, (C1 ++ C2), (D1 ++ D2). split_and!; try done.
     + intros e He. auto.
@@ -167,13 +167,13 @@ Proof.
   apply andb_true_iff in Hc as [Hc Hok]. apply andb_true_iff in Hc as [Hw Hd]. apply negb_true_iff in Hw. apply wf_declb_true in Hd.
   destruct (ok_run_split cfg d qs ops1 ops2 rs0 st1 Hok R1) as [Hok1 Hok2].
   destruct (run_to_rhist cfg d qs ops1 Hd rs0 st1 (rs0_rhist cfg d) Hok1 R1) as [HH1 _].
-  assert (Hcl : Forall (clear_ok false) ops2).
-  { rewrite forallb_forall in Hnc. apply Forall_forall. intros o Ho. specialize (Hnc o ltac:(by apply elem_of_list_In)). by destruct o. }
-  destruct (run_to_rhist_gen false cfg d qs ops2 Hd Hcl st1 st2 HH1 Hok2 R2) as [HH2 P12].
-  assert (Hr1 : sreach true cfg s1). { destruct HH1 as [_ HS]. eapply Forall_lookup_1; [exact (HS i w1 W1)|exact S1]. }
-  destruct (sreach_hist2 true cfg s1 Hw Hr1) as (HI1 & iss1 & dead1 & H1).
-  assert (Hs : esteps false cfg s1 s2) by (eapply (Forall2_lookup_lr _ _ _ _ _ _ (P12 i w1 w2 W1 W2)); done).
-  destruct (esteps_since cfg s1 s2 iss1 dead1 Hev Hw HI1 H1 Hs) as (iss2 & dead2 & C & D & _ & _ & _ & [A1 A2 A3 A4 A5 A6 A7] & _).
+  assert (Hcl : Forall (flags_ok false true) ops2).
+  { rewrite forallb_forall in Hnc. apply Forall_forall. intros o Ho. specialize (Hnc o ltac:(by apply elem_of_list_In)). destruct o; cbn; auto; done. }
+  destruct (run_to_rhist_gen false true cfg d qs ops2 Hd Hcl st1 st2 HH1 Hok2 R2) as [HH2 P12].
+  assert (Hr1 : sreach true true cfg s1). { destruct HH1 as [_ HS]. eapply Forall_lookup_1; [exact (HS i w1 W1)|exact S1]. }
+  destruct (sreach_hist2 true true cfg s1 Hw Hr1) as (HI1 & iss1 & dead1 & H1).
+  assert (Hs : esteps false true cfg s1 s2) by (eapply (Forall2_lookup_lr _ _ _ _ _ _ (P12 i w1 w2 W1 W2)); done).
+  destruct (esteps_since true cfg s1 s2 iss1 dead1 Hev Hw HI1 H1 Hs) as (iss2 & dead2 & C & D & _ & _ & _ & [A1 A2 A3 A4 A5 A6 A7] & _).
   exists C, D. split_and!; try done.
   intros e He Hin. apply (A5 e He). apply elem_of_list_lookup in Hin as (j & Hj). exact (h_stored s1 iss1 (h2_hist _ _ _ H1) j e Hj).
 Qed.
